@@ -2,7 +2,7 @@
 # tools/seedtest.sh <ID> <patch.diff> [tier]  — run ./check <ID> against /repo's HEAD + patch WITHOUT touching /repo:
 # a scratch worktree is bind-mounted over /repo in a private mount namespace, with its own cargo target
 # dir (seeded from /verif/target so only the changed crates rebuild) and private evidence/replays dirs.
-# SEEDTEST_ARGS="--replay <file>" replaces "--tier <tier>". Prints the check's output; exit status is the check's. Everything it creates is removed afterwards.
+# SEEDTEST_ARGS="--replay <file>" replaces "--tier <tier>"; SEEDTEST_CMD="<shell command>" replaces the whole ./check call. Prints the check's output; exit status is the check's. Everything it creates is removed afterwards.
 set -u
 id="$1"; patch="$(readlink -f "$2")"; tier="${3:-quick}"
 wt="/tmp/mut-$id-$$"
@@ -12,7 +12,7 @@ trap cleanup EXIT
 if ! git -C "$wt" apply "$patch"; then echo "PATCH DOES NOT APPLY" >&2; exit 2; fi
 mkdir -p "$wt-ev" "$wt-rp"
 cp -a /verif/target "$wt-target" 2>/dev/null || mkdir -p "$wt-target"
-unshare -m sh -c "mount --bind '$wt' /repo && mount --bind '$wt-ev' /verif/evidence && mount --bind '$wt-rp' /verif/replays && cd /verif && CARGO_TARGET_DIR='$wt-target' ./check $id ${SEEDTEST_ARGS:---tier $tier}"
+unshare -m sh -c "mount --bind '$wt' /repo && mount --bind '$wt-ev' /verif/evidence && mount --bind '$wt-rp' /verif/replays && cd /verif && export CARGO_TARGET_DIR='$wt-target' && ${SEEDTEST_CMD:-./check $id ${SEEDTEST_ARGS:---tier $tier}}"
 rc=$?
 echo "seedtest: check exit=$rc; replays: $(ls "$wt-rp" | wc -l)"
 ls "$wt-rp" | head -3 | while read f; do python3 -c "import json,sys; d=json.load(open('$wt-rp/$f')); print('  ', d['key'][:150], '::', (d['message'] or '')[:300])"; done
